@@ -188,12 +188,92 @@ def rr_cases(ctx, res, n):
         P.randint = orig
 
 
+class StubClient(object):
+    """The part of KafkaClient that Producer._next_partition touches, with good metadata."""
+
+    def __init__(self, reactor):
+        self.reactor = reactor
+        self.topic_partitions = {}
+
+    def metadata_error_for_topic(self, topic):
+        return 0
+
+
+def producer_cases(ctx, res, n):
+    """Real Producer._next_partition (one partitioner per topic, current list passed in) vs model."""
+    import afkak.partitioner as P
+    from afkak.producer import Producer
+    from twisted.internet.task import Clock
+
+    rng = ctx.rng
+    orig = P.randint
+    batch, expects, metas = [], [], []
+    try:
+        for i in range(n):
+            rs = rng.random() < 0.4
+            sr = ScriptedRandint()
+            P.randint = sr
+            P.RoundRobinPartitioner.set_random_start(rs)
+            client = StubClient(Clock())
+            prod = Producer(client, partitioner_class=P.RoundRobinPartitioner)
+            topics = ["t%d" % k for k in range(rng.randrange(1, 4))]
+            lists = {t: gen_parts(rng) for t in topics}
+            lines, outs, per_topic = ["prod-reset"], [["ok"]], {t: [] for t in topics}
+            windows = []
+            for _ in range(rng.randrange(2, 30)):
+                t = rng.choice(topics)
+                if rng.random() < 0.12:
+                    lists[t] = gen_parts(rng)
+                    per_topic[t] = []
+                cur = lists[t]
+                client.topic_partitions[t] = list(cur)
+                sr.next = rng.randrange(0, 16)
+                start = str(sr.next % max(len(cur), 1)) if rs else "-"
+                lines.append("prod-next %s %s %s" % (t, ints(cur), start))
+                d = prod._next_partition(t, None)
+                r = []
+                d.addCallbacks(r.append, lambda f: r.append(f))
+                if not r or not isinstance(r[0], int):
+                    outs.append(["error"])
+                    break
+                outs.append(["int %d" % r[0]])
+                per_topic[t].append(r[0])
+                nn = len(cur)
+                if nn and cur == sorted(cur) and len(per_topic[t]) >= nn:
+                    windows.append((list(cur), per_topic[t][-nn:]))
+            mon = ["mon-rr %s %s" % (ints(ps), ints(w)) for ps, w in windows]
+            batch.append((lines, outs, windows, mon))
+            res.evaluations += 1
+            res.count("producer_histories"); res.count("producer_calls", len(lines) - 1); res.count("producer_topics=%d" % len(topics))
+            if len(topics) > 1 and len(lines) > 4:
+                res.nontrivial(lines)
+            res.sample({"op": "producer-next-partition", "random_start": rs, "lines": lines[:8], "impl": outs[:8]}, limit=7)
+    finally:
+        P.randint = orig
+        P.RoundRobinPartitioner.set_random_start(False)
+    all_lines = [l for b in batch for l in b[0] + b[3]]
+    got = ctx.model("partitioner", all_lines)
+    pos = 0
+    for lines, outs, windows, mon in batch:
+        g = got[pos:pos + len(lines)]
+        gm = got[pos + len(lines):pos + len(lines) + len(mon)]
+        pos += len(lines) + len(mon)
+        if g != outs:
+            j = next(k for k in range(len(lines)) if g[k] != outs[k])
+            res.disagreements.append({"component": "partitioner/producer", "scenario": lines[: j + 1], "impl": outs[j], "model": g[j]})
+        for (ps, w), x in zip(windows, gm):
+            if x != ["ok"]:
+                res.monitor_failures.append({"what": "per-topic round-robin window (through Producer._next_partition) is not fair", "scenario": {"partitions": ps, "window": w, "history": lines}, "tags": ["rr-unfair-producer"]})
+        res.traces_validated += 1
+
+
 def run(ctx, res):
     res.rule = ("hashed: random keys (every length 0..67, long, high bytes in every tail position, text vs UTF-8) x partition lists; "
                 "non-trivial = key of >= 4 bytes (exercises the chunk loop). round-robin: random histories of selections with list "
                 "changes, random/fixed start (randint scripted); non-trivial = history of > 2 selections. distinct = by content hash.")
     hashed_cases(ctx, res, ctx.scale(1500, 40000))
     rr_cases(ctx, res, ctx.scale(400, 6000))
+    producer_cases(ctx, res, ctx.scale(300, 5000))
 
 
 def search(ctx, res, broken):
@@ -201,6 +281,7 @@ def search(ctx, res, broken):
     r2 = Result()
     hashed_cases(ctx, r2, ctx.scale(4000, 60000))
     rr_cases(ctx, r2, ctx.scale(1000, 10000))
+    producer_cases(ctx, r2, ctx.scale(1000, 10000))
     return r2.monitor_failures[:3]
 
 
